@@ -28,7 +28,8 @@ EXCLUDED adjacencies (Go's outcome would depend on a race, or the model has no c
     loop takes the first id concurrently with the read loop queueing the next ones);
   * more than 2 callers queued behind a blocked write loop, more than 3 peer frames queued behind a client that
     does not read (nothing wrong with them; they only make walks slow);
-  * a caller sending KeepAliveAck (72) itself: pred_c07 could not tell it from an acknowledgement; types 900..999
+  * a caller sending KeepAliveAck (72) itself on a client WITH the built-in ackHandler: the predicates could not tell it from
+    an acknowledgement (on a no_ack_handler client it is generated: operation manual_ack); types 900..999
     and above 1023 (refused by the constructors: C05's `types` family); client_timeout_ms (real time);
   * Go-only steps without model counterpart: gate_payload / release_payload / expect_header / expect_rest,
     peer_read / drain_raw, sleep, write_fail kind=timeout / in_payload.
@@ -47,7 +48,7 @@ DEFAULT_WEIGHTS = dict(
     send=10, send_nowait=3, send_internal=2, send_for=2, send_special=2, shutdown=1.5,
     cancel=4, wait=6, expect=10, drain=3,
     reply=14, peer_replylike=4, peer_uns=5, keepalive=6, ka_burst=1.5, ka_payload=2,
-    cut=3, batch=4, peer_close=0.7, close=0.7, write_fail=1, state=3, wait_connect=2, flood=0.15)
+    cut=3, batch=4, peer_close=0.7, close=0.7, write_fail=1, state=3, wait_connect=2, flood=0.15, manual_ack=6)
 
 
 def skew(**kw):
@@ -121,6 +122,7 @@ def healthy(S):
     return (S["phase"] in ("checkinitial", "negotiating-gsv", "negotiating-gsv-waiting", "negotiating-spv", "negotiating-spv-waiting",
                            "negotiating-done", "ready")
             and not S["closed"] and not S["pclosed"] and S["writer"] not in ("parked", "dead", "exit")
+            and not (S["writing"] and S["holding_typ"] == 14)       # the write loop has taken a CloseConnection: it will park
             and S["reader"] not in ("dead", "exit", "waitdone") and S["fail"] == "none")
 
 
@@ -215,7 +217,7 @@ class Walk:
         if rnd.random() < 0.35:
             for t in rnd.sample([61, 63, 100, 1023, 12, 30], rnd.randrange(1, 3)):
                 hs.append(dict(typ=t, mode=rnd.choice(["all", "none", "part", "panic"]), k=rnd.randrange(0, 9)))
-        if rnd.random() < 0.08:
+        if rnd.random() < 0.12:
             self.no_ack = True
             conn["no_ack_handler"] = True
             if rnd.random() < 0.5:
@@ -508,6 +510,7 @@ class Walk:
         offer("send_for", can_send and gated_ok)
         offer("send_special", can_send and gated_ok and len([c for c in self.callers.values() if c["typ"] in SPECIAL_REQ]) < 2)
         offer("shutdown", can_send and gated_ok and len(self.shutdowns) < 2)
+        offer("manual_ack", can_send and gated_ok and self.no_ack)
         offer("flood", can_send and S["ready"] and not S["closed"] and not S["writing"] and S["writer"] in ("top", "inner")
               and len(self.callers) < 4 and self.cut is None and peer_ok)
         blocked = [c for c, v in S["callers"].items() if v == "blocked" and c < 1000000]
@@ -584,9 +587,14 @@ class Walk:
                     st["msgid"] = 1000 + rnd.randrange(100000)
                     self.stats["msgid:fresh"] += 1
                 self.preset = True
-            if st["typ"] == 14 and self.healthy_until is None:
-                self.healthy_until = self.level_start      # a CloseConnection is on its way: the connection is being ended
             self.steps.append(st)
+        elif name == "manual_ack":
+            # the application acknowledges by hand: SendNoWait of a header-only KeepAliveAck, id 0 = "let the client number it"
+            c = self.nextc
+            self.nextc += 1
+            self.steps.append(dict(op="send", caller=c, typ=T_ACK, len=0, tag=0, api="SendNoWait", msgid=0, ver=rnd.choice([0, 1])))
+            self.callers[c] = dict(typ=T_ACK, len=0, api="SendNoWait")
+            self.stats["op:send/manual-ack"] += 1
         elif name == "flood":
             # many requests outstanding at once, the peer reads each of them and answers none
             for _ in range(rnd.choice([33, 34, 40])):
@@ -598,8 +606,8 @@ class Walk:
                 self.add(op="expect_frame")
             self.stats["op:flood"] += 1
         elif name == "shutdown":
-            if self.healthy_until is None:
-                self.healthy_until = self.level_start
+            # (a Shutdown CALL ends nothing: if it gives up before its CloseConnection is taken by the write loop the connection
+            # is as live as before — `healthy` turns false when the write loop holds a CloseConnection)
             c = self.nextc
             self.nextc += 1
             self.callers[c] = dict(typ=14, len=0, api="Shutdown")
